@@ -447,3 +447,27 @@ def random_mtl(rng, heads_disjoint=True, max_abs=300):
         if all(float(t.detach().abs().max()) <= max_abs for t in ts if t.numel() > 0):
             return M
     raise RuntimeError("could not generate a bounded mtl program")
+
+
+def sibling_mtl(rng):
+    """a feature that is ONE output of a multi-output op (split / unbind) whose sibling output is also used
+    by a head: the sibling path reaches the shared leaves around the feature tensor"""
+    M = MTL()
+    P = M.P
+    n = rng.choice([2, 3, 4])
+    x = P.add_leaf((n,), [rng.choice([-2, -1, 1, 2, 3]) for _ in range(n)])
+    M.shared_leaves = [x]
+    h = P.add_aff(lambda t: t[0] * 2, [x], "n0*2")[0]
+    k = rng.randrange(1, n)
+    outs = P.add_aff(lambda t, k=k: t[0].split(k), [h], f"n{h}.split({k})")
+    M.features = [outs[0]]
+    sib = outs[1]
+    T = rng.choice([1, 2, 3])
+    for t in range(T):
+        own = [P.add_leaf((), [rng.choice([-2, 1, 2])])] if rng.random() < 0.7 else []
+        hp = [outs[0]] + own
+        if t == T - 1 or rng.random() < 0.5:
+            hp.append(sib)
+        M.losses.append(to_scalar(rng, P, hp))
+        M.task_leaves.append(sorted(P.reach_leaves([M.losses[-1]], excluded=set(M.features))))
+    return M
